@@ -27,7 +27,10 @@ type seedMeta struct {
 	Detected *bool  `json:"detected"`
 }
 
-func copyTree(src, dst string) error {
+// copyTree copies src to dst; the directories named in link (relative to src)
+// are not copied but symlinked: large generated trees that the patch at hand
+// does not touch are only read through the link.
+func copyTree(src, dst string, link ...string) error {
 	return filepath.WalkDir(src, func(p string, d fs.DirEntry, err error) error {
 		if err != nil {
 			return err
@@ -35,6 +38,14 @@ func copyTree(src, dst string) error {
 		rel, _ := filepath.Rel(src, p)
 		if rel == ".git" {
 			return filepath.SkipDir
+		}
+		for _, l := range link {
+			if rel == l && d.IsDir() {
+				if err := os.Symlink(p, filepath.Join(dst, rel)); err != nil {
+					return err
+				}
+				return filepath.SkipDir
+			}
 		}
 		target := filepath.Join(dst, rel)
 		if d.IsDir() {
@@ -86,6 +97,13 @@ func runMutants(prop, repo, verif string) []mutantResult {
 		}
 		jobs = append(jobs, job{name: "seeded/" + filepath.Base(filepath.Dir(p)), patch: p, source: "independently seeded", expected: exp})
 	}
+	// behaviour-preserving refactorings (written by independent agents, each verified against the
+	// test suite and by differential testing): the check must stay silent on every one of them
+	refs, _ := filepath.Glob(filepath.Join(verif, "refactors", "*", "patch.diff"))
+	sort.Strings(refs)
+	for _, p := range refs {
+		jobs = append(jobs, job{name: "refactors/" + filepath.Base(filepath.Dir(p)), patch: p, source: "behaviour-preserving refactoring", expected: "silent"})
+	}
 	if len(jobs) == 0 {
 		return nil
 	}
@@ -112,7 +130,12 @@ func runMutants(prop, repo, verif string) []mutantResult {
 			}
 			defer os.RemoveAll(scratch)
 			r, v := filepath.Join(scratch, "repo"), filepath.Join(scratch, "verif")
-			if err := copyTree(repo, r); err != nil {
+			// the generated data tree (62 MB) is symlinked unless the patch touches it
+			var link []string
+			if pb, err := os.ReadFile(j.patch); err == nil && !strings.Contains(string(pb), " a/data/") && !strings.Contains(string(pb), " b/data/") {
+				link = []string{"data"}
+			}
+			if err := copyTree(repo, r, link...); err != nil {
 				res.Result = "scratch-failed"
 				return
 			}
@@ -165,13 +188,19 @@ func firstLine(s string) string {
 
 func summarizeMutants(rs []mutantResult) (killed, total, regress int, lines []string) {
 	for _, r := range rs {
-		total++
-		if r.Result == "killed" {
-			killed++
+		if r.Expected != "silent" {
+			total++
+			if r.Result == "killed" {
+				killed++
+			}
 		}
 		if r.Expected == "killed" && r.Result != "killed" {
 			regress++
 			lines = append(lines, fmt.Sprintf("CHECKER-REGRESSION: %s was expected to be reported and is %s", r.Name, r.Result))
+		}
+		if r.Expected == "silent" && r.Result == "killed" {
+			regress++
+			lines = append(lines, fmt.Sprintf("CHECKER-REGRESSION: false alarm on the behaviour-preserving %s: %s", r.Name, r.By))
 		}
 	}
 	return
